@@ -21,8 +21,9 @@ ID = "C20"
 RULE = ("Hypothesis: sums of 1-2 products of 2-6 copies (incl. powers) of a "
         "two-index tensor U (NonSymmetricTensor or AntiSymmetricTensor "
         "without bra-ket symmetry) with all indices in one space, first- or "
-        "second-position contractions, 0-3 remainder tensors that may carry "
-        "the shared index, Einstein or explicit target sets, "
+        "second-position contractions, 0-3 remainder tensors (exponents "
+        "-2..2, i.e. also in a denominator) that may carry the shared index, "
+        "Einstein or explicit target sets, "
         "evaluate_deltas on/off; oracle: value on F_p models in which U is "
         "an exactly orthogonal matrix on that space (Cayley transform of a "
         "random skew-symmetric matrix). Pairs sharing BOTH indices while "
@@ -77,6 +78,9 @@ def st_term(draw, space, ukind, pool, other_pool):
     objs = []
     commons = [c for c in pool[-2:]]
     pool = pool[:-2]
+    # remainder objects may also carry the shared index of a constructed
+    # pair (the pair must then be left untouched)
+    rpool = pool + commons if draw(st.integers(0, 2)) == 0 else pool
     n_res = draw(st.integers(0, 2))
     for k in range(n_res):   # constructed pair sharing exactly one index
         c = commons[k]
@@ -93,10 +97,15 @@ def st_term(draw, space, ukind, pool, other_pool):
     objs = list(draw(st.permutations(objs)))
     for _ in range(draw(st.integers(0, 3))):
         kd, nm, rank = draw(st.sampled_from(REMAINDERS))
-        labels = [draw(st.sampled_from(pool + other_pool if draw(st.booleans())
-                                       else pool)) for _ in range(rank)]
+        labels = [draw(st.sampled_from(rpool + other_pool
+                                       if draw(st.booleans())
+                                       else rpool)) for _ in range(rank)]
         if kd == "N":
-            objs.append({"k": "N", "name": nm, "u": labels, "l": [], "exp": 1})
+            # also in a denominator: an index on an object with a negative
+            # exponent counts as an occurrence like any other
+            ex = draw(st.sampled_from([1] * 6 + [-1, -1, -2, 2]))
+            objs.append({"k": "N", "name": nm, "u": labels, "l": [],
+                         "exp": ex})
         else:
             objs.append({"k": kd, "name": nm, "u": labels[:1], "l": labels[1:],
                          "bk": 0, "exp": 1})
@@ -176,6 +185,16 @@ def analyse(term, targets):
 def run_case(case):
     r = R()
     terms_d = case["terms"]
+    # the same object in numerator and denominator cancels when the term is
+    # built: the description would then no longer describe the term
+    for t in terms_d:
+        seen = {}
+        for o in t["objs"]:
+            key = (o["k"], o["name"], tuple(o.get("u", [])),
+                   tuple(o.get("l", [])))
+            sg = 1 if int(o["exp"]) > 0 else -1
+            if seen.setdefault(key, sg) != sg or int(o["exp"]) == 0:
+                raise BadCase("object in numerator and denominator")
     # all terms need the same free indices: use explicit targets when the
     # Einstein sets differ
     ein = [sorted(l for l, n in term_label_count(t).items() if n == 1)
@@ -272,6 +291,9 @@ def run_case(case):
           f"resolvable={min(res, 3)}", f"nonresolvable={min(nonres, 3)}")
     if powers:
         r.cls("power")
+    if any(o["name"] != "U" and o["exp"] < 0 for t in terms_d
+           for o in t["objs"]):
+        r.cls("remainder_in_denominator")
     if explicit:
         r.cls("explicit_targets")
     return r
